@@ -366,6 +366,10 @@ def _run_instance(c, tree, mod, label, recv, rep, timeout_ms, lookup):
     interp = Interp(ctx, vars(mod), contract_lookup=lookup, loop_specs=c.loops, unit_name=rep.name)
     interp.current_module = mod
     interp.method_disciplines = dict(c.methods)
+    for oname, spec in c.opaque.items():
+        getter = spec[0]
+        interp.opaque[getter(mod)] = (oname,) + tuple(spec[1:])
+    interp.decl_disciplines = dict(c.decl_disciplines)
     interp.loop_ordinals = extract.module_loop_ordinals(tree, target_node)
     st = St()
     starts = []      # (st, Closure, free env V's for spec)
